@@ -20,8 +20,9 @@ META = {
             'from a completed, still-resumable, unexpired session found in the cache or under a current ticket key with a '
             'consistent ClientHello; the resumed connection has the original parameters; altered/forged/foreign tickets never '
             'resume (ideal AEAD, stated as section hypotheses); invalidated sessions never resume; when the server declines both '
-            'ends complete a full handshake -- REFUTED for TLS<=1.2 tickets (client aborts), proved for session-ID, TLS 1.3 and '
-            'for the repaired client.  TLS 1.3 PSK soundness is PARTIAL (no lifetime, server name, suite: refuted with witnesses); '
+            'ends complete a full handshake (full theorem for session ID, TLS<=1.2 ticket and TLS 1.3 PSK since the client repair '
+            '/repo 51120a0).  TLS 1.3 PSK soundness is complete since /repo e172bf7 (lifetime); preservation of server name and '
+            'suite under TLS 1.3 is refuted with a witness (RFC-permitted, known finding); '
             'server-side invalidation is proved for the session-ID path and refuted for stateless tickets.  The model is run by '
             'vm_compute on the same random and systematic histories as live TLSConnection pairs and compared per connection; '
             'a direct oracle written from the property text judges every live connection.',
@@ -103,28 +104,19 @@ def run(ctx):
     # ---- the same histories on the Coq model
     if res['model_ok']:
         lits = [L.history_lit(r) for _, r in good]
-        (bad, bad_fixed), errs = vlib.coq_bad_indices(
+        bad, errs = vlib.coq_bad_indices(
             'C13', ['Model.C13_Resume'], 'list scfg * list event * list (list Z)',
-            ['(chk_hist false)', '(chk_hist true)'], lits, shard=max(4, (len(lits) + 15) // 16) if quick else 60,
+            'chk_hist', lits, shard=max(4, (len(lits) + 15) // 16) if quick else 60,
             timeout=900 if quick else 3000)
-        ctx.log('model vs implementation: %d histories, %d disagree (%d with the repaired-client model), %d evaluation errors'
-                % (len(lits), len(bad), len(bad_fixed), len(errs)))
-        if bad and not bad_fixed and not errs:
-            # the implementation behaves like the model with the client repair of proposed_fixes/C13-1.diff
-            ctx.notes.append('implementation agrees with the repaired-client model (fixed=true) on all histories '
-                             'and differs from the unrepaired one on %d: F1 is fixed in this tree' % len(bad))
-            ctx.log(ctx.notes[-1])
-            ctx.cov['model_variant'] = 'fixed=true'
-            bad = []
-        else:
-            ctx.cov['model_variant'] = 'fixed=false'
+        ctx.log('model vs implementation: %d histories, %d disagree, %d evaluation errors'
+                % (len(lits), len(bad), len(errs)))
         ctx.count('model-vs-impl(vm_compute):histories', len(lits), [('agree', len(lits) - len(bad))])
         for e in errs:
             tie_broken = 'history evaluation failed: ' + e[:400]
             ctx.log(e[-1200:])
         for i in bad[:5]:
             job, r = good[i]
-            rc, out = vlib.coq_eval('C13dbg', ['Model.C13_Resume'], ['sobserve false %s' % _hl(r)])
+            rc, out = vlib.coq_eval('C13dbg', ['Model.C13_Resume'], ['sobserve %s' % _hl(r)])
             ctx.log('model/impl disagreement on history seed=%s name=%s\n impl: %s\n model: %s'
                     % (r['seed'], job.get('name'), r['obs'], ' '.join(out.split())[-1500:]))
             if not found:
